@@ -59,6 +59,7 @@ var schedules = []schedule{
 	{"whole/1", 0, false, func(rs int) int { return 1 }},
 	{"5byte-src/rs+33", 5, true, func(rs int) int { return rs + 33 }},
 	{"whole/64K", 0, true, func(rs int) int { return 65536 }},
+	{"3byte-src/io.Copy", 3, false, nil}, // drained with io.Copy (uses the decoder's WriteTo when it has one)
 }
 
 var n int
@@ -110,6 +111,12 @@ func one(r *mon.Run, d draft, payload []byte, rs int, class string, scheds []sch
 			dec, e := d.enc.NewDecoder(src, digest, 16384)
 			if e != nil {
 				derr = e
+				return
+			}
+			if sc.dstSize == nil {
+				var sink bytes.Buffer
+				_, derr = io.Copy(&sink, dec)
+				out = sink.Bytes()
 				return
 			}
 			dst := make([]byte, sc.dstSize(rs))
